@@ -14,6 +14,10 @@ helpers = c13.helper_set(ctx)
 for name, w, r in c13.codec_pairs(ctx):
     a = wire.norm(wire.sequence(ctx, w, helpers)); b = wire.norm(wire.sequence(ctx, r, helpers))
     out['pairs'][name] = {'writer': w, 'reader': r, 'mode': 'equal' if a == b else 'frozen', 'w': a, 'r': b}
+    nw, nr = wire.named_writer(ctx, w, helpers), wire.named_reader(ctx, r, helpers)
+    ok, x, y = wire.named_agreement(nw, nr)
+    if x or y:
+        out['pairs'][name]['names'] = {'mode': 'equal' if ok else 'frozen', 'w': x, 'r': y}
 for fn in c13.writer_fns(ctx):
     cp = wire.count_prefixes(ctx, fn)
     if cp:
